@@ -310,6 +310,33 @@ func c11World(rc *kernel.RunCtx) {
 			}
 		}
 	}
+	// two requests in flight on one handler and one pool: A is held inside its final Write
+	// while B (another document, possibly failing) is served completely
+	if !rc.Failed() && len(D) > 0 {
+		for _, bFails := range []bool{false, true} {
+			recA, recB := newRecorder(), newRecorder()
+			other := chunkComp{chunks: [][]byte{[]byte(strings.Repeat("B", len(D)+17))}, failAt: 2}
+			if bFails {
+				other.failAt = 1
+			}
+			hA := templ.Handler(mk(len(chunks)+1, newEnv(u)), templ.WithStatus(201))
+			hB := templ.Handler(other)
+			k.Go(func() {
+				hA.ServeHTTP(parkRecorder{recA, func(string, int) { k.Park("reqA", "write", "", nil) }}, httptest.NewRequest(http.MethodGet, "/a", nil))
+			})
+			k.Quiesce()
+			hB.ServeHTTP(recB, httptest.NewRequest(http.MethodGet, "/b", nil))
+			if p := k.Find("reqA"); p != nil {
+				k.Run(p, kernel.Decision{})
+			}
+			k.Quiesce()
+			evals += 2
+			if recA.status != 201 || !bytes.Equal(recA.body.Bytes(), D) {
+				rc.Fail("C11/concurrent-request-corrupts-response", "request A (%d-byte document, status 201) was held in its Write while request B (fails=%v) was served: A got status %d and %q", len(D), bFails, recA.status, kernel.Short(recA.body.String(), 200))
+			}
+			k.Count("probe_two_requests_in_flight", 1)
+		}
+	}
 	k.Count("evaluations", int64(evals))
 	k.Count("failed_requests", int64(failedReqs))
 	k.Count("probe_streaming_partial_output_observed", int64(partials))
